@@ -73,6 +73,17 @@ fn enumerate_notes(tier: Tier, c10: bool, emit: &mut dyn FnMut(&str)) {
             emit(&format!("owner={}|text={}", owner, text.replace('\n', "\\n")));
         }
     }
+    if c10 {
+        // runs of adjacent blocks of one kind and wide containers (source markers as written: the
+        // action formats the note first)
+        let mut doc = |t: &str| {
+            if !t.contains("<!--") {
+                emit(&format!("owner=1|text={}", t.replace('\n', "\\n")));
+            }
+        };
+        space::sibling_run_docs(&mut doc);
+        space::wide_container_docs(&mut doc);
+    }
 }
 
 fn state_of(lib: &BTreeMap<String, String>) -> HashMap<String, String> {
